@@ -25,7 +25,7 @@ Lemma Rabs_sq x : Rabs x * Rabs x = x * x.
 Proof. rewrite <- Rabs_mult. apply Rabs_pos_eq. nra. Qed.
 
 Ltac abs_consts :=
-  unfold Rdiv; repeat rewrite Rabs_mult; repeat rewrite Rabs_inv; repeat rewrite Rabs_mult;
+  unfold Rdiv; repeat rewrite Rabs_mult; repeat rewrite Rabs_inv; repeat rewrite Rabs_mult; repeat rewrite Rinv_mult;
   repeat match goal with
   | |- context [Rabs (IZR ?z)] =>
       first [ rewrite (Rabs_pos_eq (IZR z)) by lra | rewrite (Rabs_left (IZR z)) by lra ]
